@@ -9,6 +9,34 @@ from ..report import Check
 from ..rules import find_calls
 from ..tab import Hooks, Valuation, show_valuation, tabulate
 
+def _writes_to_written_file(fn) -> list:
+    """`.write(...)` calls on the handle of an open(..., 'w') with-block of fn (whatever the handle is called)."""
+    out = []
+    for w in ast.walk(fn):
+        if not isinstance(w, ast.With):
+            continue
+        for item in w.items:
+            c = item.context_expr
+            if isinstance(c, ast.Call) and ast.unparse(c.func).split(".")[-1] == "open" and item.optional_vars is not None \
+                    and isinstance(item.optional_vars, ast.Name):
+                mode = ast.unparse(c.args[1]) if len(c.args) > 1 else ast.unparse(kwarg(c, "mode") or ast.Constant("r"))
+                if "w" in mode or "a" in mode or "x" in mode:
+                    h = item.optional_vars.id
+                    out += [x for x in ast.walk(w) if isinstance(x, ast.Call) and isinstance(x.func, ast.Attribute)
+                            and x.func.attr == "write" and isinstance(x.func.value, ast.Name) and x.func.value.id == h]
+    return out
+
+
+def _ord(fn):
+    from ..model import order_index
+    key = id(fn)
+    if key not in _ORD:
+        _ORD[key] = order_index(fn)
+    return _ORD[key]
+
+
+_ORD: dict = {}
+
 HD = "reuse.header"
 AN = "reuse._annotate"
 
@@ -114,15 +142,17 @@ def rule_newlines(ck: Check, repo: Repo) -> None:
     if len(norm) != 1 or [ast.unparse(a) for a in norm[0].value.args] != [var, "'\\n'"]:
         r.violation(q, "normalisation does not replace exactly the detected line ending by \\n",
                     f"{[ast.unparse(n.value) for n in norm]}", repo.loc(fn))
-    elif not (rd.lineno < det[0].lineno < norm[0].lineno < wr.lineno):
+    elif not (_ord(fn)[id(rd)] < _ord(fn)[id(det[0])] < _ord(fn)[id(norm[0])] < _ord(fn)[id(wr)]):
         r.violation(q, "line endings are detected after normalisation (or after the write)",
                     "detection must see the raw text", repo.loc(det[0]))
     if ast.unparse(kwarg(wr, "newline") or ast.Constant(None)) != var:
         r.violation(q, "file is not written back with the detected line ending",
                     f"open(..., 'w', newline={ast.unparse(kwarg(wr, 'newline') or ast.Constant(None))})", repo.loc(wr))
     # the write receives the assembled output
-    w = [c for c in ast.walk(fn) if isinstance(c, ast.Call) and ast.unparse(c.func) == "fp.write"]
-    if [ast.unparse(c.args[0]) for c in w] not in (["output"], ["bom + output"]):
+    w = _writes_to_written_file(fn)
+    from ..rules import deep_text as _deep
+    if [ast.unparse(c.args[0]) for c in w] not in (["output"], ["bom + output"]) and \
+            [_deep(fn, c.args[0]) for c in w] not in ([_deep(fn, "output")], [_deep(fn, "bom + output")]):
         r.violation(q, "written text", f"{[ast.unparse(c) for c in w]}", repo.loc(fn))
     dl = repo.func("reuse.extract.detect_line_endings")
 
@@ -153,7 +183,7 @@ def rule_shebang(ck: Check, repo: Repo) -> None:
         if not ex or len(ch) != 1 or len(ph) != 1:
             r.violation(q, "shebang handling vanished", f"extract={len(ex)} create={len(ch)} place={len(ph)}", repo.loc(fn))
             continue
-        if not all(e.lineno < ch[0].lineno for e in ex) or not ch[0].lineno < ph[0].lineno:
+        if not all(_ord(fn)[id(e)] < _ord(fn)[id(ch[0])] for e in ex) or not _ord(fn)[id(ch[0])] < _ord(fn)[id(ph[0])]:
             r.violation(q, "header is created before the shebang is extracted",
                         "the shebang would end up inside / below the comment block", repo.loc(ch[0]))
         from ..rules import deep_text
@@ -353,11 +383,14 @@ def rule_bom(ck: Check, repo: Repo) -> None:
     split = re.search(r"if text\.startswith\('\\ufeff'\): (\w+) = '\\ufeff' text = (text\[1:\]|text\.removeprefix\('\\ufeff'\))", src)
     var = split.group(1) if split else None
     init = var is not None and f"{var} = ''" in src
-    wr = [ast.unparse(c.args[0]) for c in ast.walk(fn) if isinstance(c, ast.Call) and ast.unparse(c.func) == "fp.write"]
-    back = var is not None and wr == [f"{var} + output"]
+    from ..rules import deep_text as _deep2
+    wr = [_deep2(fn, c.args[0]) for c in _writes_to_written_file(fn)]
+    raw = [ast.unparse(c.args[0]) for c in _writes_to_written_file(fn)]
+    back = var is not None and (raw == [f"{var} + output"] or wr == [_deep2(fn, f"{var} + output")]
+                                or (len(wr) == 1 and wr[0].startswith(f"{var} + ")))
     det = [n for n in ast.walk(fn) if isinstance(n, ast.Assign) and ast.unparse(n.value) == "detect_line_endings(text)"]
     ifs = [n for n in ast.walk(fn) if isinstance(n, ast.If) and "startswith('\\ufeff')" in ast.unparse(n.test)]
-    before_processing = bool(ifs and det and ifs[0].lineno < det[0].lineno)
+    before_processing = bool(ifs and det and _ord(fn)[id(ifs[0])] < _ord(fn)[id(det[0])])
     r.instance("bom-structure", {"split_off": bool(split), "initialised_empty": init, "written_back_first": back,
                                  "before_processing": before_processing})
     if not (split and init and back and before_processing):
